@@ -27,6 +27,14 @@ Record iobs := mkIObs {
 Inductive case :=
 | CDiff (l r : list string) (o : dobs)
 | CInv (ps : list ptype) (args : list zarg) (known compiled : list Z) (o : iobs)
+(* the registry: [sites] are the places (file:line) where the driver created its
+   Funcs, in the order it did, as the driver itself saw them (runtime.Caller at
+   the call); [obs] is what bigslice.FuncLocations() says about these Funcs *)
+| CReg (sites obs : list string)
+(* two registries made of real registrations: Funcs [lf] and [rf] (indices into
+   [sites]); [ll], [rl] are their locations taken from bigslice.FuncLocations(), [o]
+   is the real FuncLocationsDiff of [ll] and [rl] *)
+| CRegPair (sites : list string) (lf rf : list Z) (ll rl : list string) (o : dobs)
 (* the same invocation sent by the executor's compile to a FRESH worker: [g] is the
    executor's graph of the earlier invocations (id, ids of the Results among its own
    arguments), [odeps] the dependency set addInvocation recorded for this one *)
@@ -94,6 +102,15 @@ Definition exact (c : case) : bool :=
       (* same arguments => same slice => same task names; when the model says the
          arguments change in transit the names are free *)
       && (onames o || negb (outcome_eqb (ztransport known compiled ps args) (OArrived args)))
+  | CReg sites obs => strs_eqb (func_locations (fold_left func_register sites [])) obs
+  | CRegPair sites lf rf ll rl o =>
+      let site := fun k => nth (Z.to_nat k) sites EmptyString in
+      strs_eqb (map site lf) ll && strs_eqb (map site rf) rl
+      && match func_locations_diff ll rl, o with
+         | DLines m, DObs isnil lines =>
+             strs_eqb m lines && Bool.eqb isnil (match m with [] => true | _ => false end)
+         | _, _ => false
+         end
   | CDeps g ps args odeps o =>
       outcome_eqb (zfresh_transport g ps args) o
       && (negb (typecheck Z ps args)
@@ -168,6 +185,16 @@ Definition ok (c : case) : bool :=
   match c with
   | CDiff l r o => diff_ok l r o
   | CInv ps args known compiled o => inv_ok ps args known compiled o
+  | CReg sites obs =>
+      (* one entry per Func, in registration order, each the place of its creation *)
+      strs_eqb sites obs
+  | CRegPair sites lf rf ll rl o =>
+      (* the comparison tells registries apart whenever they hold different Funcs
+         (Funcs created at different places), and its output transforms one
+         location list into the other *)
+      diff_ok ll rl o
+      && (list_eqb Z.eqb lf rf
+          || match o with DObs _ (_ :: _) => true | _ => false end)
   | CDeps g ps args odeps o =>
       (* whatever the worker lacks must be sent: the outcome is judged as if every
          earlier invocation were compiled there, and every Result argument must be
